@@ -7,7 +7,7 @@
    A Go map[string]string is an association list with distinct keys ([keys_nodup]); Go's random
    iteration order is the order of that list; every result below is stated through [lookup] only,
    hence does not depend on it. *)
-From Coq Require Import List ZArith Bool Lia String.
+From Coq Require Import List ZArith Bool Lia String Permutation.
 From FB Require Import Lib.Eqb Model.Literals Model.Atoi Model.Params Judge.E8 Proofs.AtoiProofs Proofs.ParamsProofs.
 Import ListNotations.
 Open Scope Z_scope.
@@ -59,6 +59,15 @@ Theorem C20_apply_conf : forall (ps : pmap) (m : cmap),
   (has_topic ps = true -> dtc_ok m /\ lookup (lp ++ dtc) ps = None) ->
   exists cm, apply_conf ps m = Some cm /\ overlay_char ps m cm.
 Proof. exact apply_conf_char. Qed.
+
+(* Go iterates the parameter map in random order: any two orders give the same ConfigMap as a finite map
+   ([same_cval]: equal entries; the nested default.topic.config map compared by lookups) *)
+Theorem C20_overlay_order_irrelevant : forall (ps ps' : pmap) (m : cmap),
+  Permutation ps ps' -> keys_nodup ps = true ->
+  (has_topic ps = true -> dtc_ok m /\ lookup (lp ++ dtc) ps = None) ->
+  exists cm cm', apply_conf ps m = Some cm /\ apply_conf ps' m = Some cm'
+                 /\ forall k, same_cval (lookup k cm) (lookup k cm').
+Proof. exact apply_conf_order. Qed.
 
 (* when there is no default table the call fails, and that happens exactly for an unparsable buffersize
    (the two consumers) or empty brokers (the producer) *)
@@ -212,6 +221,7 @@ Print Assumptions C20_overlay.
 Print Assumptions C20_overlay_plain.
 Print Assumptions C20_no_leak.
 Print Assumptions C20_apply_conf.
+Print Assumptions C20_overlay_order_irrelevant.
 Print Assumptions C20_build_error.
 Print Assumptions C20_build_error_iff.
 Print Assumptions C20_checkconfig_iff.
